@@ -16,6 +16,9 @@ pub struct TsLog {
 
 pub struct Ts {
     pub log: Arc<Mutex<TsLog>>,
+    /// the upgraded handler treats end of input as the end of the session (returns an error), like a
+    /// line-oriented handler would
+    pub strict_upgrade: bool,
 }
 
 impl t::VarlinkInterface for Ts {
@@ -30,6 +33,15 @@ impl t::VarlinkInterface for Ts {
         if !call.wants_more() {
             return call.reply_need_more();
         }
+        call.set_continues(true);
+        for i in 0..n {
+            call.reply(i)?;
+        }
+        call.set_continues(false);
+        call.reply(n)
+    }
+    /// streams like Stream but leaves it to the library to reject a call without `more`
+    fn stream_raw(&self, call: &mut dyn t::Call_StreamRaw, n: i64) -> varlink::Result<()> {
         call.set_continues(true);
         for i in 0..n {
             call.reply(i)?;
@@ -53,13 +65,20 @@ impl t::VarlinkInterface for Ts {
         let mut v = Vec::new();
         let _ = bufreader.read_to_end(&mut v);
         self.log.lock().unwrap().upgraded.push(v);
+        if self.strict_upgrade {
+            return Err(varlink::context!(varlink::ErrorKind::ConnectionClosed));
+        }
         Ok(Vec::new())
     }
 }
 
 pub fn new_ts() -> (VarlinkService, Arc<Mutex<TsLog>>) {
+    new_ts_with(false)
+}
+
+pub fn new_ts_with(strict_upgrade: bool) -> (VarlinkService, Arc<Mutex<TsLog>>) {
     let log = Arc::new(Mutex::new(TsLog::default()));
-    let iface = t::new(Box::new(Ts { log: log.clone() }));
+    let iface = t::new(Box::new(Ts { log: log.clone(), strict_upgrade }));
     (
         VarlinkService::new("verif", "ts", "1", "http://verif", vec![Box::new(iface)]),
         log,
